@@ -108,7 +108,16 @@ class Ctx:
             alltags = " ".join(t for t in alltags.split() if t != "race")
             race = ["-race"]
         self._sync_gosum()
-        cmd = ["go", "build"] + race + ["-tags", alltags, "-o", out, "./cmd/harness"]
+        modfile = []
+        if os.path.abspath(REPO) != "/repo":
+            # VERIF_REPO points at a scratch copy of the repository (seedtest): build against it through an
+            # alternate go.mod so that /repo itself is never touched
+            mf = os.path.join(self.work, "alt.mod")
+            text = open(os.path.join(HARNESS, "go.mod")).read().replace("=> /repo", "=> " + os.path.abspath(REPO))
+            open(mf, "w").write(text)
+            shutil.copy(os.path.join(REPO, "go.sum"), os.path.join(self.work, "alt.sum"))
+            modfile = ["-modfile=" + mf]
+        cmd = ["go", "build"] + modfile + race + ["-tags", alltags, "-o", out, "./cmd/harness"]
         rc, o, dt = sh(cmd, 900, cwd=HARNESS, env=GOENV)
         if rc != 0:
             raise Undecided("harness build failed (tags=%s):\n%s" % (alltags, o[-3000:]))
